@@ -5,6 +5,7 @@ import ereduce
 import eunits
 import ewrap
 import kinds
+import estep
 
 LEVEL = "E-WRAP over BooleanVecSet"
 
@@ -31,4 +32,11 @@ def run(ctx):
                 "lookup; every shortcut taken must denote the operation.")
     n = eshort.run(ctx, F, kinds=("zbdd",))
     ctx.floor("E-TABLE.shortcut", "shortcut situations interpreted", n, 20)
-    ctx.not_decided = "the level-comparison recursion, consistency after add_vars"
+    ctx.explain("E-TABLE.step: the recursive (Shannon expansion) step is interpreted on structured abstract operands -- inner nodes "
+                "with opaque or nested children in every relative level configuration (and every complement-tag "
+                "combination for BCDDs); recursive calls are builtins with the meaning of the callee, reduce yields a node. "
+                "The returned edge must denote the operation for all values of atoms and decision variables, the new "
+                "node must respect the variable order, and a cache entry must be valid for its key.")
+    n = estep.run(ctx, F, kinds=("zbdd",))
+    ctx.floor("E-TABLE.step", "situations of the recursive step (set operations)", n, 20)
+    ctx.not_decided = "subset0/subset1/change recursion, apply_ite of the Boolean view, consistency after add_vars"
